@@ -223,10 +223,24 @@ def _alarm(signum, frame):
     raise RunTimeout()
 
 
+def limit_memory():
+    """Address-space limit per process: a run-away allocation in the code under test becomes a MemoryError inside
+    that run (a verdict candidate like any other exception) instead of a worker killed by the kernel."""
+    try:
+        import resource
+        lim = int(float(os.environ.get("PGSIM_MEM_GB", "8")) * 2 ** 30)
+        soft, hard = resource.getrlimit(resource.RLIMIT_AS)
+        if hard == resource.RLIM_INFINITY or lim < hard:
+            resource.setrlimit(resource.RLIMIT_AS, (lim, hard))
+    except Exception:
+        pass
+
+
 def _worker(args):
     modname, tier, idxs, base, alarm_s, keep_cases = args
     mod = importlib.import_module(modname)
     boot()
+    limit_memory()
     faulthandler.enable()
     out = []
     for i in idxs:
@@ -376,6 +390,7 @@ def replay_file(mod, path):
     with open(path) as f:
         case = json.load(f)
     boot()
+    limit_memory()
     if "sequence" in case:
         # several runs executed one after the other in ONE process (state that the code under test keeps at
         # module or class level travels from one to the next); the verdict is that of the last one
